@@ -303,7 +303,7 @@ FREE_STRS = (['drifts\nafter 20 min', 'line1\nline2\nline3', '\ntop', 'end\n', '
 # A carriage return inside a cell (a label pasted from a Windows / old Mac text) is read back as a line feed by
 # /repo main before the repair `fix: read_tsv / _read_tsv_simple open the file with newline=''` (branch fix-c18-r5):
 # CR cells are drawn only when that commit is in the tree under test.  Set CR_CELLS = True after the cherry-pick.
-CR_CELLS = os.environ.get('VT_C18_CR', '0') == '1'
+CR_CELLS = os.environ.get('VT_C18_CR', '1') == '1'   # on since fix commit 28a0741 is on /repo main (VT_C18_CR=0 switches the CR cells off)
 CR_STRS = ['a\rb', 'a\r\nb', '\rz', 'z\r', 'x\r\n', 'l1\r\nl2\rl3\nl4', 'q\r,"\r\n"']
 _NUM_ALPHA_CH = set('0123456789+-_.einfatyEINFATY')
 
